@@ -2,6 +2,8 @@ use ropey::Rope;
 
 use syntax::parser::TextSize;
 
+/// Maps byte offsets of a text to zero-based lines and UTF-16 columns (the units of LSP positions) and back.
+/// Lines end at LF, CR or CRLF.
 #[derive(Debug, Eq, PartialEq)]
 pub struct LineIndex {
     rope: Rope,
@@ -14,12 +16,48 @@ impl LineIndex {
         }
     }
 
+    /// The line containing the byte offset `pos`.
     pub fn pos_to_line(&self, pos: TextSize) -> usize {
-        self.rope.char_to_line(pos.into())
+        self.rope.byte_to_line(self.clamp(pos))
     }
 
+    /// The byte offset of the first character of `line`, or the end of the text if there is no such line.
     pub fn line_to_pos(&self, line: usize) -> TextSize {
-        let pos = self.rope.line_to_char(line);
-        TextSize::try_from(pos).expect("line index out of bounds")
+        let line = line.min(self.rope.len_lines());
+        Self::text_size(self.rope.line_to_byte(line))
+    }
+
+    /// The UTF-16 column of the byte offset `pos` within its line.
+    pub fn pos_to_col(&self, pos: TextSize) -> u32 {
+        let pos = self.clamp(pos);
+        let line_start = self.rope.line_to_char(self.rope.byte_to_line(pos));
+        let col = self.rope.char_to_utf16_cu(self.rope.byte_to_char(pos))
+            - self.rope.char_to_utf16_cu(line_start);
+        col.try_into().expect("column out of range")
+    }
+
+    /// The byte offset of the UTF-16 column `col` of `line`; a column past the end of the line means the line end.
+    pub fn line_col_to_pos(&self, line: usize, col: u32) -> TextSize {
+        if line >= self.rope.len_lines() {
+            return Self::text_size(self.rope.len_bytes());
+        }
+        let start = self.rope.line_to_char(line);
+        let mut end = self.rope.line_to_char(line + 1);
+        // the line terminator is not part of the line
+        while end > start && matches!(self.rope.char(end - 1), '\n' | '\r') {
+            end -= 1;
+        }
+        let start_cu = self.rope.char_to_utf16_cu(start);
+        let end_cu = self.rope.char_to_utf16_cu(end);
+        let cu = start_cu.saturating_add(col as usize).min(end_cu);
+        Self::text_size(self.rope.char_to_byte(self.rope.utf16_cu_to_char(cu)))
+    }
+
+    fn clamp(&self, pos: TextSize) -> usize {
+        usize::from(pos).min(self.rope.len_bytes())
+    }
+
+    fn text_size(pos: usize) -> TextSize {
+        TextSize::try_from(pos).expect("text too large")
     }
 }
